@@ -120,6 +120,14 @@ Theorem C19_registry_unique :
     (forall t1 t2 k1 k2 c, In (k1, c) (rt_rets (r_thr s t1)) -> In (k2, c) (rt_rets (r_thr s t2)) -> k1 = k2).
 Proof. exact registry_unique. Qed.
 
+(* no deadlock: while a call is outstanding some thread's next step makes progress *)
+Theorem C19_registry_progress :
+  forall (todos : list (list nat)) (sched : list nat),
+    let s := rrun true (rinit todos) sched in
+    (exists t, rt_todo (r_thr s t) <> []) ->
+    exists u, (work (rstep true s u) u < work s u)%nat.
+Proof. exact registry_progress. Qed.
+
 Example C19_registry_run_example :
   let s := rrun true (rinit [[7; 8]; [7]; [8; 7]]%nat) (concat (repeat [0; 1; 2]%nat 30)) in
   rdone 3 s = true /\
@@ -182,6 +190,7 @@ Print Assumptions C19_distinct_instances_disjoint.
 Print Assumptions C19_distinct_instances_disjoint_current.
 Print Assumptions C19_table_programs_independent.
 Print Assumptions C19_registry_unique.
+Print Assumptions C19_registry_progress.
 Print Assumptions C19_registry_unlocked_refuted.
 Print Assumptions C19_string_shared_refuted_prefix.
 Print Assumptions C19_parse_shared_refuted_prefix.
